@@ -106,6 +106,18 @@ std::string strip_salt(const std::string& s, const std::string& salt) {
   return out;
 }
 
+bool builtin_name(const std::string& n, int64_t* off) {
+  if (n == "UTC" || n == "UTC0") { *off = 0; return true; }
+  if (n.size() != 18 || n.compare(0, 9, "Fixed/UTC") != 0) return false;
+  const char* p = n.c_str() + 9;
+  if ((p[0] != '+' && p[0] != '-') || p[3] != ':' || p[6] != ':') return false;
+  for (int i : {1, 2, 4, 5, 7, 8}) if (p[i] < '0' || p[i] > '9') return false;
+  int64_t s = ((p[1] - '0') * 10 + (p[2] - '0')) * 3600 + ((p[4] - '0') * 10 + (p[5] - '0')) * 60 + (p[7] - '0') * 10 + (p[8] - '0');
+  if (s > 86400) return false;
+  *off = p[0] == '-' ? -s : s;
+  return true;
+}
+
 std::string fixed_name(int64_t off) {
   if (off == 0 || off < -86400 || off > 86400) return "UTC";
   char b[40];
